@@ -49,7 +49,14 @@ func DecodeUrlValues(values map[string][]string, ptr any, tagName string) (err e
 		TagName: tagName,
 	})
 
-	if err = dec.Decode(values, ptr); err != nil {
+	// Notice: the decoder writes into the slices it is given. Decode a copy: the values are
+	// the parsed form of the request (r.PostForm), which may be read or bound again.
+	copied := make(map[string][]string, len(values))
+	for key, vals := range values {
+		copied[key] = append([]string(nil), vals...)
+	}
+
+	if err = dec.Decode(copied, ptr); err != nil {
 		return err
 	}
 	return Validate(ptr)
